@@ -15,6 +15,9 @@ pub struct Case {
     pub server: u8,
     /// 0 publisher, 1 subscriber, 2 requestor, 3 replier
     pub kind: u8,
+    /// which CA the client is configured to trust: 0 = CA A (the "trusted" one), 1 = CA B
+    #[serde(default)]
+    pub client_ca: u8,
 }
 
 pub struct Pki {
@@ -99,7 +102,14 @@ pub async fn run_case(pki: &Pki, c: &Case) -> Outcome {
     let ns = "tlsns";
     let tn = format!("topic-{}", fresh_id());
     let topic = format!("/{ns}/{tn}");
-    let expect_ok = c.client % 4 == 0 && c.server % 3 == 0;
+    // the server verifies clients against CA A (server 0, 1) or CA B (server 2) and presents a
+    // certificate from CA A (server 0) or CA B (server 1, 2); the client presents a certificate
+    // from CA A (client 0) / CA B (client 1) / self-signed / none and trusts CA A or CA B
+    let server_trusts_a = c.server % 3 != 2;
+    let server_cert_from_a = c.server % 3 == 0;
+    let client_cert_ok = match c.client % 4 { 0 => server_trusts_a, 1 => !server_trusts_a, _ => false };
+    let server_cert_ok = server_cert_from_a == (c.client_ca % 2 == 0);
+    let expect_ok = client_cert_ok && server_cert_ok;
     // a trusted observer on the same topic (only meaningful when the server is the trusted one)
     let mut observer = None;
     if c.server % 3 == 0 && c.kind % 4 == 0 {
@@ -109,8 +119,7 @@ pub async fn run_case(pki: &Pki, c: &Case) -> Outcome {
             }
         }
     }
-    // the client under test always trusts CA A
-    let ca = a.client_ca();
+    let ca = if c.client_ca % 2 == 0 { a.client_ca() } else { b.client_ca() };
     let registered = match c.client % 4 {
         0 => try_register_lib(addr, &ca, &a.client_cert(), &a.client_key(), c.kind, &topic).await,
         1 => try_register_lib(addr, &ca, &b.client_cert(), &b.client_key(), c.kind, &topic).await,
@@ -124,16 +133,17 @@ pub async fn run_case(pki: &Pki, c: &Case) -> Outcome {
         Ok(r) => r,
         Err(e) => return Outcome::Inconclusive(e),
     };
-    let who = ["a certificate from the trusted CA", "a certificate from another CA", "a self-signed certificate", "no certificate"][(c.client % 4) as usize];
-    let srv = ["the trusted CA", "another CA (clients verified against the trusted CA)", "another CA"][(c.server % 3) as usize];
+    let who = ["a certificate from CA A", "a certificate from CA B", "a self-signed certificate", "no certificate"][(c.client % 4) as usize];
+    let srv = ["presenting a CA-A certificate and verifying clients against CA A", "presenting a CA-B certificate and verifying clients against CA A", "presenting a CA-B certificate and verifying clients against CA B"][(c.server % 3) as usize];
+    let trusts = ["CA A", "CA B"][(c.client_ca % 2) as usize];
     if registered && !expect_ok {
         return Outcome::fail(
-            if c.server % 3 == 0 { "untrusted-client-registered" } else { "client-talked-to-untrusted-server" },
-            format!("a client with {who} registered a stream (kind {}) on a server whose certificate is from {srv}", c.kind % 4),
+            if !client_cert_ok { "untrusted-client-registered" } else { "client-talked-to-untrusted-server" },
+            format!("a client with {who}, configured to trust {trusts}, registered a stream (kind {}) on a server {srv}", c.kind % 4),
         );
     }
     if !registered && expect_ok {
-        return Outcome::fail("trusted-pair-refused", format!("client and server both hold certificates from the generated CA, yet registering stream kind {} failed", c.kind % 4));
+        return Outcome::fail("trusted-pair-refused", format!("a client with {who} trusting {trusts} and a server {srv} certify each other, yet registering stream kind {} failed", c.kind % 4));
     }
     if let Some(mut obs) = observer {
         // nothing from an untrusted publisher may reach the topic
@@ -146,7 +156,7 @@ pub async fn run_case(pki: &Pki, c: &Case) -> Outcome {
             _ => {}
         }
     }
-    if expect_ok && c.kind % 4 >= 2 {
+    if expect_ok && c.kind % 4 >= 2 && c.server % 3 == 0 {
         // complete a request/reply exchange between two trusted clients
         let fut = async {
             let cl = client(addr, a).await?;
@@ -169,14 +179,16 @@ pub async fn run_case(pki: &Pki, c: &Case) -> Outcome {
         }
     }
     let labels = vec![
-        ["client-trusted", "client-other-ca", "client-self-signed", "client-no-cert"][(c.client % 4) as usize],
-        ["server-trusted", "server-cert-other-ca", "server-other-ca"][(c.server % 3) as usize],
+        ["client-cert-ca-a", "client-cert-ca-b", "client-self-signed", "client-no-cert"][(c.client % 4) as usize],
+        ["server-cert-a-trusts-a", "server-cert-b-trusts-a", "server-cert-b-trusts-b"][(c.server % 3) as usize],
+        ["client-trusts-ca-a", "client-trusts-ca-b"][(c.client_ca % 2) as usize],
+        if expect_ok { "pairing-must-work" } else { "pairing-must-be-refused" },
     ];
     Outcome::pass(labels, !expect_ok)
 }
 
 pub fn run(ctx: &mut Ctx) {
-    ctx.rule = "the full product client identity {trusted CA, other CA, self-signed, none} x server identity {trusted CA, certificate from another CA (client verification isolated), another CA entirely} x stream kind (4), with freshly generated keys every run (two independent runs of the bundled generator give the two CAs, rcgen the self-signed certificate, a raw quinn client the certificate-less peer); quick enumerates all 48 cells once, thorough twice; oracle: exactly trusted x trusted registers (and completes an exchange), every other pairing is never answered Ok and nothing it publishes reaches a trusted subscriber; non-trivial = any pairing other than trusted x trusted".into();
+    ctx.rule = "the full product client certificate {CA A, CA B, self-signed, none} x CA the client trusts {A, B} x server identity {cert A / verifies clients against A, cert B / verifies against A (isolates the client's check of the server), cert B / verifies against B} x stream kind (4), with freshly generated keys every run (two independent runs of the bundled generator give the two CAs, rcgen the self-signed certificate, a raw quinn client the certificate-less peer); quick enumerates all 24 identity triples with one seed-chosen stream kind each (all four for the fully trusted triple), thorough all 96 cells twice; oracle: a registration is answered Ok exactly when the client's certificate chains to the CA the server verifies against AND the server's certificate chains to the CA the client trusts (three of the 24 triples), every other pairing is never answered Ok and nothing it publishes reaches a trusted subscriber; non-trivial = any pairing other than trusted x trusted".into();
     ctx.assumptions.push("configuration enumeration: expiry, revocation and key-usage variations are outside the property".into());
     let env = match Env::new() {
         Ok(e) => e,
@@ -186,13 +198,20 @@ pub fn run(ctx: &mut Ctx) {
         Ok(p) => p,
         Err(e) => return ctx.inconclusive(format!("pki: {e}")),
     };
+    let seed = ctx.seed;
     let mut cases = vec![];
     let rounds = ctx.tier.pick(1, 2);
     for round in 0..rounds {
         for client in 0..4u8 {
             for server in 0..3u8 {
-                for kind in 0..4u8 {
-                    cases.push(Case { client, server, kind });
+                for client_ca in 0..2u8 {
+                    for kind in 0..4u8 {
+                        // quick: one stream kind per identity triple (chosen by the seed), thorough: all
+                        if ctx.tier == crate::core::Tier::Quick && kind != (crate::core::mix(seed, (client * 6 + server * 2 + client_ca) as u64) % 4) as u8 && !(client == 0 && server == 0 && client_ca == 0) {
+                            continue;
+                        }
+                        cases.push(Case { client, server, kind, client_ca });
+                    }
                 }
             }
         }
